@@ -46,6 +46,11 @@ def programs(tick, unit, kind='futures'):
                                                  on_open={'sl': [[2, 1]], 'tp': [[1, 0.005], [1, 3]]} if kind == 'futures' else {'tp': [[1, 0.005], [1, 3]]},
                                                  on_reduced={'sl': 'all', 'sl_d': 1} if kind == 'futures' else None,
                                                  cancel_entry=True)))
+    # two entry legs at ONE price (the second one is hit at the open of what is left of the candle after the first fill); the
+    # handler of the second fill gets out at market
+    P.append(('long-2leg-same-price-liquidate', dict(base, side='long', enter={'when': 'flat', 'legs': [[1, -1], [1, -1]]},
+                                                      on_open={'sl': [[1, 3]], 'tp': [[1, 3]]} if kind == 'futures' else {'tp': [[1, 3]]},
+                                                      on_increased={'liquidate': True} if kind == 'futures' else None, cancel_entry=True)))
     P.append(('long-market-breakeven', dict(base, side='long', enter={'when': 'flat', 'legs': [[2, 0]]},
                                              on_open={'sl': [[2, 2]], 'tp': [[1, 1], [1, 3]]},
                                              on_reduced={'sl': 'breakeven'}, cancel_entry=True)))
